@@ -195,5 +195,6 @@ def run(repo, seed, tier):
             'rule': 'token soups (<=2/3 tokens over a fixed alphabet), every prefix of %d snippets, small edits; all '
                     'positions in range and one step out of range; 12 query methods + result attributes; '
                     'non-trivial = non-blank program' % len(SNIPPETS),
-            'samples': progs[:3] + progs[-2:], 'violations': uniq[:10], 'signatures_seen': all_sigs,
+            'samples': progs[:3] + progs[-2:],
+            'violations': [v for v in violations if v.get('signature', v['label']) not in artifacts][:300], 'signatures_seen': all_sigs,
             'environment_artifacts_filtered': sorted(artifacts & set(all_sigs))}
